@@ -361,11 +361,77 @@ def run_default_rule(ctx):
     return n
 
 
+def run_repeated_and_empty(ctx):
+    """a rule name defined three times whose definitions evaluate to the same status next to each other ([FAIL, FAIL, SKIP],
+    [PASS, PASS, FAIL], ...) with met and unmet expectations, and test cases that set NO expectation at all (`rules: {}`) or one only
+    for a rule that is not in the file: the plain, JSON and JUnit renderings list the same evaluated statuses, the same rules without
+    expectation, and exit alike"""
+    defs = {'F': 'x == 2', 'P': 'x == 1', 'S': 'l[ k == 99 ].v == 1'}
+    jobs, meta = [], []
+    k = 0
+    for combo in (('F', 'F', 'S'), ('P', 'P', 'F'), ('S', 'S', 'S'), ('F', 'P', 'P'), ('P', 'F', 'F', 'F')):
+        rules = ''.join('rule a {\n  %s\n}\n' % defs[c] for c in combo) + 'rule b {\n  x == 1\n}\n'
+        for exp_a in ('PASS', 'FAIL', 'SKIP'):
+            spec = [{'name': 'c0', 'input': {'x': 1, 'l': []}, 'expectations': {'rules': {'a': exp_a}}},
+                    {'name': 'c1', 'input': {'x': 1, 'l': []}, 'expectations': {'rules': {}}},
+                    {'name': 'c2', 'input': {'x': 1, 'l': []}, 'expectations': {'rules': {'not_in_file': 'PASS'}}},
+                    {'name': 'c3', 'input': {'x': 1, 'l': []}, 'expectations': {'rules': {'a': exp_a, 'b': 'PASS'}}}]
+            d = os.path.join(ctx.wd, 're%d' % k); k += 1
+            e2e.write_files(d, {'r.guard': rules, 'tests/r_tests.yaml': json.dumps(spec)})
+            for fmt in ('plain', 'plain-v', 'json', 'junit'):
+                o = {'plain': [], 'plain-v': ['-v'], 'json': ['-o', 'json'], 'junit': ['-o', 'junit']}[fmt]
+                jobs.append({'args': ['test', '-a', '-r', 'r.guard', '-t', 'tests/r_tests.yaml'] + o, 'cwd': d}); meta.append((combo, exp_a, fmt))
+    res = dict(zip(meta, e2e.run_many(jobs)))
+    n = 0
+    for combo in sorted(set(m[0] for m in meta)):
+        for exp_a in ('PASS', 'FAIL', 'SKIP'):
+            n += 1
+            jc, jso, jse = res[(combo, exp_a, 'json')]
+            info = {'class': 'test-renderings', 'definitions_of_a': list(combo), 'expected_for_a': exp_a}
+            try:
+                tcs = json.loads(jso.decode())['test_cases']
+            except Exception as e:
+                ctx.failing('test -o json unreadable: %s' % e, info, found=True)
+                continue
+            for fmt in ('plain', 'plain-v', 'junit'):
+                c, so, se = res[(combo, exp_a, fmt)]
+                if c != jc:
+                    ctx.failing('test (%s) exits %s, -o json exits %s (definitions of a: %s, expected %s)' % (fmt, c, jc, list(combo), exp_a), dict(info, fmt=fmt), found=True)
+            for fmt in ('plain', 'plain-v'):
+                pcs = parse_plain(res[(combo, exp_a, fmt)][1].decode('utf-8', 'replace'))
+                if len(pcs) != len(tcs):
+                    ctx.failing('%s output has %d test cases, JSON has %d' % (fmt, len(pcs), len(tcs)), dict(info, fmt=fmt), found=True)
+                    continue
+                for b, (pc, tc) in enumerate(zip(pcs, tcs)):
+                    jf = sorted((f['name'], f['expected'], tuple(f['evaluated'])) for f in tc['failed_rules'])
+                    js = sorted(s['name'] for s in tc['skipped_rules'])
+                    jp = sorted((p_['name'], p_['evaluated']) for p_ in tc['passed_rules'])
+                    if sorted((n_, e, tuple(ev)) for n_, e, ev in pc['failed']) != jf or sorted(pc['noexp']) != js or sorted(pc['passed']) != jp:
+                        ctx.failing('%s and JSON renderings of test case %d disagree (definitions of a: %s, expected %s): plain %s, json failed=%s skipped=%s passed=%s'
+                                    % (fmt, b, list(combo), exp_a, pc, jf, js, jp), dict(info, fmt=fmt, case=b), found=True)
+            try:
+                root = ET.fromstring(res[(combo, exp_a, 'junit')][1].decode())
+                for tcx in root.iter('testcase'):
+                    fl = tcx.find('failure')
+                    if fl is None:
+                        continue
+                    m = re.search(r'Evaluated = \[(.*?)\]', (fl.text or '') + (fl.get('message') or ''))
+                    want = next((f['evaluated'] for tc in tcs if tc['name'] == tcx.get('id') for f in tc['failed_rules'] if f['name'] == tcx.get('name')), None)
+                    got = [x.strip() for x in m.group(1).split(',')] if m else None
+                    if want is None or got != want:
+                        ctx.failing('JUnit failure of rule %s in case %s says evaluated %s, JSON says %s' % (tcx.get('name'), tcx.get('id'), got, want), dict(info, fmt='junit'), found=True)
+            except ET.ParseError as e:
+                ctx.failing('test -o junit output is not well-formed XML: %s' % e, info, found=True)
+    ctx.coverage['repeated_and_empty_scenarios'] = n
+    ctx.coverage['evaluations'] += len(jobs)
+    return n
+
+
 def run(ctx):
     ctx.build(cli=True)
     pr = ctx.proofs('C16')
     thorough = ctx.tier == 'thorough'
-    n1 = exhaustive_gsr(ctx, 6 if thorough else 4) + run_multi_files(ctx) + run_default_rule(ctx)
+    n1 = exhaustive_gsr(ctx, 6 if thorough else 4) + run_multi_files(ctx) + run_default_rule(ctx) + run_repeated_and_empty(ctx)
     n2 = run_e2e(ctx, 300 if thorough else 60)
     ctx.coverage['distinct_nontrivial'] = n1 + n2
     ctx.coverage['rule'] = ('get_status_result: every expected status x every status list up to length %d (all distinct); end-to-end: generated rules files '
